@@ -303,10 +303,34 @@ pub fn run_node(w: &WorldDir, bins: &Bins, spec: &NodeSpec) -> NodeRun {
     cmd.stdin(Stdio::null());
     // ADDR_NO_RANDOMIZE is set once on the simulator process (main.rs) and inherited by
     // every child: no pre_exec hook, so std can use the cheap posix_spawn path.
-    let out = match cmd.output() {
-        Ok(o) => o,
+    // A node normally finishes in milliseconds.  A wall-clock cap (far above 60x the normal time)
+    // turns a hang into a report instead of a stuck check: the child is killed and the run counts
+    // as "did not return".
+    cmd.stdout(Stdio::piped()).stderr(Stdio::piped());
+    let child = match cmd.spawn() {
+        Ok(c) => c,
         Err(e) => simcore::harness_error(&format!("cannot spawn node in {}: {e}", cwd.display())),
     };
+    let pid = child.id();
+    let cap = std::env::var("VERIF_NODE_CAP_S").ok().and_then(|s| s.parse::<u64>().ok()).unwrap_or(180);
+    let hung = std::sync::Arc::new(std::sync::atomic::AtomicBool::new(false));
+    let hung2 = hung.clone();
+    let (tx, rx) = std::sync::mpsc::channel::<()>();
+    let watchdog = std::thread::spawn(move || {
+        if let Err(std::sync::mpsc::RecvTimeoutError::Timeout) = rx.recv_timeout(std::time::Duration::from_secs(cap)) {
+            hung2.store(true, std::sync::atomic::Ordering::SeqCst);
+            unsafe {
+                libc::kill(pid as i32, libc::SIGKILL);
+            }
+        }
+    });
+    let out = match child.wait_with_output() {
+        Ok(o) => o,
+        Err(e) => simcore::harness_error(&format!("cannot wait for node: {e}")),
+    };
+    let _ = tx.send(());
+    let _ = watchdog.join();
+    let timed_out = hung.load(std::sync::atomic::Ordering::SeqCst);
     let exit_code = out.status.code();
     let signal = out.status.signal();
     let trace_text = std::fs::read_to_string(w.trace()).unwrap_or_default();
@@ -340,11 +364,17 @@ pub fn run_node(w: &WorldDir, bins: &Bins, spec: &NodeSpec) -> NodeRun {
         }
         done = exit_code.is_some() && exit_code != Some(137);
     }
+    if timed_out {
+        results.clear();
+        results.push(CallResult { status: "panic".into(), msg: format!("node did not finish within {cap} s (killed by the watchdog) @ hang") });
+    }
+    let killed_raw = exit_code == Some(137) || signal.is_some();
+    let killed = killed_raw && !timed_out;
     if exit_code == Some(86) {
         simcore::harness_error(&format!("shim rejected plan `{plan}`: {}", String::from_utf8_lossy(&out.stderr)));
     }
-    let killed = exit_code == Some(137) || signal.is_some();
-    if !killed && !trace_ended && exit_code != Some(101) {
+
+    if !killed_raw && !trace_ended && exit_code != Some(101) {
         // the shim's destructor must have run on a normal exit
         if exit_code != Some(101) {
             simcore::harness_error(&format!(
